@@ -22,8 +22,8 @@ def main():
         for pid in pids:
             try:
                 rep, mod = evaluate(pid, "quick", tree, skip_a3=not a3)
-                print("== %s: %d violation(s)" % (pid, len(rep.violations)))
-                for v in rep.violations[:8]:
+                print("== %s: %d violation(s)" % (pid, len(rep.unlisted())))
+                for v in rep.unlisted()[:8]:
                     print("   %s\n      what: %s\n      site: %s" % (v["key"], v["what"][:300], v.get("site")))
                     if v.get("trace"):
                         print("      trace: %s" % (v["trace"],))
